@@ -21,7 +21,7 @@ def run(tier, seed):
     res = e1common.merge_results(res, res2, 'threaded_part')
     # the glue around the tracer: every registration entry point, every reading method (also from inside running
     # code), plain enable()/disable() windows, one-line functions and lambdas; a monitoring thread that reads mid-run
-    res3 = e1common.run_property(PROP, MODULE, THEOREMS, tier, seed + 2, 88, 7000, GLUE, 'hits')
+    res3 = e1common.run_property(PROP, MODULE, THEOREMS, tier, seed + 2, 88, 7000, GLUE, 'hits', extra_cases=[e1common.FIXED_COTASKS])
     res = e1common.merge_results(res, res3, 'glue_part')
     res4 = e1common.run_property(PROP, MODULE, THEOREMS, tier, seed + 3, 24, 2000, [{'monitor'}, {'monitor', 'gen'}], 'hits', threads=True, ticks=(0,))
     return e1common.merge_results(res, res4, 'monitor_part')
